@@ -102,7 +102,7 @@ def f6_shape(an, f):
 class C11(Property):
     id = "C11"
     title = "Periodic/bulk/chunk executors run every added task exactly once"
-    quick_cases = 260
+    quick_cases = 1000
     thorough_cases = 4000
     design_ref = "DESIGN.md §6/C11, §5/F6"
     level_text = ("Unbounded Rocq theorems over an interleaving model (LTS) of PeriodicalExecutor with the bulk/chunk "
@@ -139,6 +139,10 @@ class C11(Property):
         # F6 variant: the batch is in the flusher's hand, blocked on the barrier held by an earlier Wait
         cs.append({"kind": "bulk", "maxw": 1, "interval": 1000, "bad": [], "nclients": 4,
                    "ops": [["add", 0, 1, 1], ["wait", 1], ["add", 0, 2, 1], ["wait", 2], ["rel", 0], ["rel", 0]]})
+        # F6 variant (Pinned.wait_start_hypothesis_insufficient): nothing handed over when the Wait starts
+        cs.append({"kind": "bulk", "maxw": 2, "interval": 1000, "bad": [], "nclients": 4,
+                   "ops": [["add", 0, 1, 1], ["flush", 3], ["wait", 1], ["add", 0, 2, 1], ["wait", 2],
+                           ["add", 0, 3, 1], ["rel", 0]]})
         # F6 variant with three producers
         cs.append({"kind": "bulk", "maxw": 2, "interval": 1000, "bad": [], "nclients": 4,
                    "ops": [["add", 0, 1, 1], ["add", 0, 2, 1], ["add", 0, 3, 1], ["add", 1, 4, 1], ["add", 0, 5, 1],
@@ -294,15 +298,3 @@ class C11(Property):
 
 
 PROPERTY = C11()
-
-# Development switch (off unless VERIF_C11_DEVKNOWN=1): behave as if the proposed F6 line were
-# already in KNOWN_FINDINGS.jsonl.  The committed file is what counts for real runs.
-if os.environ.get("VERIF_C11_DEVKNOWN") == "1":
-    _orig_known_ids = vlib.known_ids
-
-    def _dev_known_ids(prop):
-        d = dict(_orig_known_ids(prop))
-        if prop == "C11":
-            d.setdefault(F6_ID, {"kind": "known", "property": "C11", "id": F6_ID, "what": "(dev) F6"})
-        return d
-    vlib.known_ids = _dev_known_ids
